@@ -50,6 +50,8 @@ pub fn build(rec: &Value) -> Built {
     if creditdebit { cols.push(("Credit", "credit")); cols.push(("Debit", "debit")); } else { cols.push(("Amount", "amount")); }
     if with_balance { cols.push(("Balance", "balance")); }
     if has_conv { cols.push(("Rate", "rate")); cols.push(("Counter value", "secondary_amount")); cols.push(("Counter currency", "secondary_commodity")); }
+    let with_cmdt = cfg["cmdtcol"] == true;
+    if with_cmdt { cols.push(("Currency", "commodity")); }
     let with_charge = cfg["charge"] == "column";
     if with_charge { cols.push(("Fees & Comm", "charge")); }
     cols.push(("Memo", "note"));
@@ -106,6 +108,7 @@ pub fn build(rec: &Value) -> Built {
                 None => { cells.push(String::new()); cells.push(String::new()); cells.push(String::new()); }
             }
         }
+        if with_cmdt { cells.push(row["cmdt"].as_str().unwrap().to_string()); }
         if with_charge {
             cells.push(match dec_opt(&row["chg"]) { Some(c) => bank_number(c), None => String::new() });
         }
@@ -184,7 +187,7 @@ pub fn compare_tree(got: &[Value], rec: &Value, viols: &mut Vec<Value>) {
             let got_bal = if a["balance"].is_null() { None } else { num_of(&a["balance"]) };
             match (want_bal, got_bal) {
                 (None, None) => {}
-                (Some(x), Some((v, c))) if v == x && c == "USD" => {}
+                (Some(x), Some((v, c))) if v == x && c == b["c"].as_str().unwrap() => {}
                 (w2, g2) => viols.push(viol("balance_assertion", format!("transaction {} posting {}: assertion {:?}, the balance column gives {:?}", k + 1, i + 1, g2, w2))),
             }
         }
@@ -241,10 +244,13 @@ pub fn replay(idx: usize, rec: &Value, workdir: &str) -> Value {
                     Outcome::Rej(rj) => viols.push(viol("imported_ledger_rejected", format!("okane's book-keeping rejects the imported ledger ({} {}):\n{}\n{}", rj.class, rj.kind, rj.text, ledger))),
                     Outcome::Ok(acc) => {
                         if asset {
-                            let last = dec_opt(rec["running"].as_array().unwrap().last().unwrap()).unwrap();
-                            let got = acc.bal.get("Assets:Src").and_then(|m| m.get("USD")).copied().unwrap_or(Decimal::ZERO);
-                            if got != last {
-                                viols.push(viol("final_balance", format!("the account ends at {} USD, the statement's last balance is {}\n{}", got, last, ledger)));
+                            // the account ends, in every commodity, at the statement's last balance in that commodity
+                            for (c, v) in rec["final"].as_object().unwrap() {
+                                let last = dec_opt(v).unwrap();
+                                let got = acc.bal.get("Assets:Src").and_then(|m| m.get(c.as_str())).copied().unwrap_or(Decimal::ZERO);
+                                if got != last {
+                                    viols.push(viol("final_balance", format!("the account ends at {} {}, the statement's last balance in that commodity is {}\n{}", got, c, last, ledger)));
+                                }
                             }
                         }
                     }
@@ -255,7 +261,7 @@ pub fn replay(idx: usize, rec: &Value, workdir: &str) -> Value {
     }
     let cfg = &rec["cfg"];
     let classes = vec![format!("conv_{}", cfg["conv"].as_str().unwrap()), format!("ruleconv_{}", cfg["ruleconv"].as_str().unwrap()), format!("{}_{}", cfg["atype"].as_str().unwrap(), cfg["cols"].as_str().unwrap()),
-                       format!("layout_{}", cfg["layout"].as_str().unwrap()), cfg["order"].as_str().unwrap().to_string()];
+                       format!("layout_{}", cfg["layout"].as_str().unwrap()), cfg["order"].as_str().unwrap().to_string(), format!("cmdtcol_{}", cfg["cmdtcol"])];
     json!({"ok": viols.is_empty(), "viol": viols, "classes": classes, "observed": Value::Null,
            "files": if viols.is_empty() { Value::Null } else { json!({"yaml": b.yaml, "csv": b.csv}) }})
 }
